@@ -291,8 +291,8 @@ class Op:
 
 def _scan_build(node, env):
     _, accname, seedname, reduce, term = node
-    return rs.ops.scan(fn(accname, env), seed(seedname, env), reduce=reduce,
-                       terminator=fn(term, env) if term else None)
+    return call(rs.ops.scan, [('accumulator', fn(accname, env)), ('seed', seed(seedname, env)), ('reduce', reduce),
+                              ('terminator', fn(term, env) if term else None)], salt=len(accname) + len(seedname) + bool(reduce) + len(term or ''))
 
 
 def _tee_build(node, env, taps, path):
@@ -315,6 +315,24 @@ def _pipeline_form(ops_, path, allow_list=True):
     return rx.pipe(*ops_)
 
 
+_CALL_COUNTER = [0]
+_identity = lambda i: i                                    # noqa: E731
+# progress labels: ordinary text, and text that a formatter would interpret (braces, percent signs)
+PROGRESS_NAMES = ['p', 'data/{date}.csv', '{}', "{'shard': 3}", '100%', 'step {0} %s', 'p\xe9']
+
+
+def call(f, args, salt=None):
+    """f(*positional, **keywords) with the DOCUMENTED parameter names and order given by `args`, a list of
+    (name, value): the first j values go positionally, the others by keyword; j cycles with `salt` (or with a
+    process-wide counter), so both conventions - and every mix - meet every public function.  A signature whose order
+    or names drift from the documentation shows as soon as the other convention is used."""
+    if salt is None:
+        _CALL_COUNTER[0] += 1
+        salt = _CALL_COUNTER[0]
+    j = salt % (len(args) + 1)
+    return f(*[v for _, v in args[:j]], **{k: v for k, v in args[j:]})
+
+
 OPS = {}
 
 
@@ -328,35 +346,35 @@ _reg('starmap', 't', 'i', lambda n, e: rs.ops.starmap(fn(n[1], e)), ['dual'])
 _reg('filter', '*', _same, lambda n, e: rs.ops.filter(fn(n[1], e)), ['dual'])
 _reg('flat_map', 'l', 'i', lambda n, e: rs.ops.flat_map(), ['dual'])
 _reg('scan', '*', lambda t, n: SEED_TYPE[n[2]], _scan_build, ['dual', 'stateful'])
-_reg('count', '*', 'i', lambda n, e: rs.ops.count(reduce=n[1]), ['dual', 'stateful'])
-_reg('sum', 'if', 'f', lambda n, e: rs.math.sum(reduce=n[1]), ['dual', 'stateful'])
-_reg('mean', 'if', 'f', lambda n, e: rs.math.mean(reduce=n[1]), ['dual', 'stateful'])
-_reg('min', 'if', lambda t, n: ('o' if t == 'i' else 'x') if n[1] else t, lambda n, e: rs.math.min(reduce=n[1]), ['dual', 'stateful'])
-_reg('max', 'if', lambda t, n: ('o' if t == 'i' else 'x') if n[1] else t, lambda n, e: rs.math.max(reduce=n[1]), ['dual', 'stateful'])
-_reg('variance', 'if', 'f', lambda n, e: rs.math.variance(reduce=n[1]), ['dual', 'stateful'])
-_reg('stddev', 'if', 'f', lambda n, e: rs.math.stddev(reduce=n[1]), ['dual', 'stateful'])
+_reg('count', '*', 'i', lambda n, e: call(rs.ops.count, [('reduce', n[1])]), ['dual', 'stateful'])
+_reg('sum', 'if', 'f', lambda n, e: call(rs.math.sum, [('key_mapper', _identity), ('reduce', n[1])]), ['dual', 'stateful'])
+_reg('mean', 'if', 'f', lambda n, e: call(rs.math.mean, [('key_mapper', _identity), ('reduce', n[1])]), ['dual', 'stateful'])
+_reg('min', 'if', lambda t, n: ('o' if t == 'i' else 'x') if n[1] else t, lambda n, e: call(rs.math.min, [('key_mapper', _identity), ('reduce', n[1])]), ['dual', 'stateful'])
+_reg('max', 'if', lambda t, n: ('o' if t == 'i' else 'x') if n[1] else t, lambda n, e: call(rs.math.max, [('key_mapper', _identity), ('reduce', n[1])]), ['dual', 'stateful'])
+_reg('variance', 'if', 'f', lambda n, e: call(rs.math.variance, [('key_mapper', _identity), ('reduce', n[1])]), ['dual', 'stateful'])
+_reg('stddev', 'if', 'f', lambda n, e: call(rs.math.stddev, [('key_mapper', _identity), ('reduce', n[1])]), ['dual', 'stateful'])
 _reg('fvariance', 'if', 'f', lambda n, e: rs.math.formal.variance(reduce=n[1]), ['dual', 'stateful'])
 _reg('fstddev', 'if', 'f', lambda n, e: rs.math.formal.stddev(reduce=n[1]), ['dual', 'stateful'])
 _reg('first', '*', _same, lambda n, e: rs.ops.first(), ['dual', 'stateful', 'early'])
 _reg('last', '*', _same, lambda n, e: rs.ops.last(), ['dual', 'stateful', 'completion'])
-_reg('take', '*', _same, lambda n, e: rs.ops.take(n[1]), ['dual', 'stateful', 'early'])
+_reg('take', '*', _same, lambda n, e: call(rs.ops.take, [('count', n[1])]), ['dual', 'stateful', 'early'])
 _reg('to_list', '*', 'x', lambda n, e: rs.data.to_list(), ['dual', 'stateful', 'completion'])
-_reg('to_array', 'i', 'x', lambda n, e: rs.data.to_array(n[1]), ['dual', 'stateful', 'completion'])
+_reg('to_array', 'i', 'x', lambda n, e: call(rs.data.to_array, [('typecode', n[1])]), ['dual', 'stateful', 'completion'])
 _reg('duc', '*', _same, lambda n, e: rs.ops.distinct_until_changed(fn(n[1], e) if n[1] else None), ['dual', 'stateful'])
-_reg('clip', 'if', _same, lambda n, e: rs.data.clip(n[1], n[2]), ['dual'])
-_reg('fill_none', 'on', lambda t, n: 'i' if t == 'o' else 'n', lambda n, e: rs.data.fill_none(n[1]), ['dual'])
-_reg('batch', '*', 'x', lambda n, e: rs.data.batch(n[1]), ['dual', 'stateful', 'completion'])
+_reg('clip', 'if', _same, lambda n, e: call(rs.data.clip, [('lower_bound', n[1]), ('higher_bound', n[2])]), ['dual'])
+_reg('fill_none', 'on', lambda t, n: 'i' if t == 'o' else 'n', lambda n, e: call(rs.data.fill_none, [('value', n[1])]), ['dual'])
+_reg('batch', '*', 'x', lambda n, e: call(rs.data.batch, [('batch_size', n[1])]), ['dual', 'stateful', 'completion'])
 _reg('identity', '*', _same, lambda n, e: rs.ops.identity(), ['dual'])
 _reg('do_action', '*', _same, lambda n, e: rs.ops.do_action(on_next=(e or {}).get('do_action', lambda i: None)), ['dual'])
-_reg('assert_', '*', _same, lambda n, e: rs.ops.assert_(fn(n[1], e), name='a'), ['dual'])
-_reg('assert_1', '*', _same, lambda n, e: rs.ops.assert_1(fn(n[1], e), name='a1'), ['dual', 'stateful'])
-_reg('progress', '*', _same, lambda n, e: rs.ops.progress('p', n[1], measure_throughput=n[2]), ['dual', 'stateful'])
+_reg('assert_', '*', _same, lambda n, e: call(rs.ops.assert_, [('predicate', fn(n[1], e)), ('name', 'a')]), ['dual'])
+_reg('assert_1', '*', _same, lambda n, e: call(rs.ops.assert_1, [('predicate', fn(n[1], e)), ('name', 'a1')]), ['dual', 'stateful'])
+_reg('progress', '*', _same, lambda n, e: call(rs.ops.progress, [('name', PROGRESS_NAMES[(n[1] + bool(n[2])) % len(PROGRESS_NAMES)]), ('threshold', n[1]), ('measure_throughput', n[2])]), ['dual', 'stateful'])
 # mux only
 _reg('distinct', 'iotfp', _same, lambda n, e: rs.ops.distinct(fn(n[1], e) if n[1] else None), ['stateful', 'mux_only'])
-_reg('lag', '*', 'x', lambda n, e: rs.data.lag(n[1]), ['stateful', 'mux_only'])
-_reg('pad_start', '*', _same, lambda n, e: rs.data.pad_start(n[1], n[2]), ['stateful', 'mux_only'])
-_reg('pad_end', '*', _same, lambda n, e: rs.data.pad_end(n[1], n[2]), ['stateful', 'mux_only', 'completion'])
-_reg('start_with', '*', _same, lambda n, e: rs.ops.start_with(list(n[1])), ['stateful', 'mux_only'])
+_reg('lag', '*', 'x', lambda n, e: call(rs.data.lag, [('size', n[1])]), ['stateful', 'mux_only'])
+_reg('pad_start', '*', _same, lambda n, e: call(rs.data.pad_start, [('size', n[1]), ('value', n[2])]), ['stateful', 'mux_only'])
+_reg('pad_end', '*', _same, lambda n, e: call(rs.data.pad_end, [('size', n[1]), ('value', n[2])]), ['stateful', 'mux_only', 'completion'])
+_reg('start_with', '*', _same, lambda n, e: call(rs.ops.start_with, [('padding', list(n[1]))]), ['stateful', 'mux_only'])
 # error handlers (C13)
 _reg('ignore', '*', _same, lambda n, e: rs.error.ignore(), ['mux_only'])
 _reg('error_map', '*', _same, lambda n, e: rs.error.map((e or {}).get('error_map', lambda err: -1)), ['mux_only'])
@@ -481,20 +499,22 @@ def build_node(node, env=None, taps=None, path=()):
             inner = ([head] if head is not None else []) + inner + ([tail] if tail is not None else [])
         inner = _pipeline_form(inner, path)
 
+        salt = len(path) * 7 + sum(x for x in path if isinstance(x, int)) + len(str(node[1]))
+
         def make():
             if name == 'group_by':
-                return rs.ops.group_by(fn(node[1], env), inner)
+                return call(rs.ops.group_by, [('key_mapper', fn(node[1], env)), ('pipeline', inner)], salt)
             if name == 'roll':
-                return rs.data.roll(node[1], node[2], inner)
+                return call(rs.data.roll, [('window', node[1]), ('stride', node[2]), ('pipeline', inner)], salt + int(node[1]) + int(node[2]))
             if name == 'split':
-                return rs.data.split(fn(node[1], env), inner)
+                return call(rs.data.split, [('predicate', fn(node[1], env)), ('pipeline', inner)], salt)
             cfg = node[1]
             conv = (lambda v: None if v is None else _timedelta(seconds=v)) if cfg.get('time') in ('dt', 'dtz') else (lambda v: v)
-            return rs.data.time_split(
-                time_mapper=fn(cfg.get('time', 'id'), env),
-                active_timeout=conv(cfg.get('active')), inactive_timeout=conv(cfg.get('inactive')),
-                closing_mapper=fn(cfg['closing'], env) if cfg.get('closing') else None,
-                include_closing_item=cfg.get('include', True), pipeline=inner)
+            return call(rs.data.time_split, [
+                ('time_mapper', fn(cfg.get('time', 'id'), env)),
+                ('active_timeout', conv(cfg.get('active'))), ('inactive_timeout', conv(cfg.get('inactive'))),
+                ('closing_mapper', fn(cfg['closing'], env) if cfg.get('closing') else None),
+                ('include_closing_item', cfg.get('include', True)), ('pipeline', inner)], salt + (cfg.get('active') or 0) + 3 * (cfg.get('inactive') or 0))
         if type(inner) is list:
             # a pipeline given as a list belongs to the caller, who may hand the same list to a second operator
             # (the same per-window aggregation at two window sizes): the operator judged is that second one
